@@ -1,4 +1,4 @@
-import FrappyModel.Node.Describe
+import FrappyModel.Node.ModuleProps
 import FrappyModel.Spec.C04
 /-
 C06 — The node's self-description is true of its behaviour.
@@ -51,6 +51,11 @@ structure Probe (J V : Type) where
   subsChanged : Bool          -- the subscription tables differ after the request
   /-- for a change: the specification's decision list (C04) finds nothing to object to -/
   allowed : Bool
+  /-- for a do: the request carried a payload (anything but JSON null) -/
+  hasData : Bool := false
+  /-- for a do with a payload: the argument datatype a client rebuilds from the DESCRIBED command datainfo imports
+  and validates the payload (computed by the real datatype code, compared here) -/
+  clientAccepts : Bool := false
 
 def Reply.isError : Reply J → Bool
   | .error _ => true
@@ -62,28 +67,55 @@ def isNoSuch : Reply J → Bool
   | .error .noSuchCommand => true
   | _ => false
 
+/-- the payloads the described datainfo of a command accepts: a command described without `argument` takes no payload
+at all, one described with an argument takes exactly the payloads that argument datatype accepts (and needs one) -/
+def payloadAcceptable (argument : Option Bool) (hasData clientAccepts : Bool) : Bool :=
+  match argument with
+  | some true => hasData && clientAccepts
+  | _ => !hasData
+
+/-- the verdict of the DESCRIBED datainfo of a command on the payload of a `do`, given the verdicts
+`clientAccepts datainfo payload` of the argument datatype a client rebuilds from a described command datainfo -/
+def describedAccepts (clientAccepts : J → J → Bool) (ad : AccDesc J) (data : Option J) : Bool :=
+  payloadAcceptable ad.argument data.isSome
+    (match data with
+     | some j => clientAccepts ad.datainfo j
+     | none => false)
+
 /-- what the report promises about one exchange:
 * nothing that is not described can be read, changed, executed or subscribed (`NoSuch…`, no call, no subscription);
+* the described KIND is honoured: a described command can neither be changed, read nor subscribed, a described
+  parameter can not be executed (`NoSuch…`, no call);
 * a parameter described read-only refuses every change with ReadOnly, one described writable never answers ReadOnly
   and a change nothing objects to is not refused;
-* a described constant reads as exactly that constant, without asking the driver -/
+* a described constant reads as exactly that constant, without asking the driver;
+* the described datainfo of a command accepts and rejects the same payloads as the node: a payload the described
+  datainfo excludes is refused and the command NOT executed, one it accepts reaches the command function -/
 def ProbeOK [DecidableEq J] (d : List (ModDesc J)) (pr : Probe J V) : Prop :=
   match findDesc d pr.m pr.a with
   | none => pr.calls = [] ∧ pr.subsChanged = false ∧ isNoSuch pr.reply = true
   | some ad =>
     match pr.kind with
     | .change =>
-      (ad.readonly = some true → pr.reply = .error .readOnly ∧ pr.calls = [])
+      (ad.kind = .command → isNoSuch pr.reply = true ∧ pr.calls = [])
+      ∧ (ad.readonly = some true → pr.reply = .error .readOnly ∧ pr.calls = [])
       ∧ (ad.readonly = some false → pr.reply ≠ .error .readOnly ∧
           (pr.allowed = true → pr.calls ≠ [] ∨ Reply.isError pr.reply = false))
     | .read =>
-      match ad.constant with
-      | some c => pr.reply = .read c ∧ pr.calls = []
-      | none => True
+      (ad.kind = .command → isNoSuch pr.reply = true ∧ pr.calls = [])
+      ∧ (match ad.constant with
+         | some c => pr.reply = .read c ∧ pr.calls = []
+         | none => True)
     | .activate =>
       -- a command can not be subscribed: refused like an unknown name, before anything is subscribed
       ad.kind = .command → isNoSuch pr.reply = true ∧ pr.subsChanged = false
-    | .do_ => True
+    | .do_ =>
+      (ad.kind = .parameter → isNoSuch pr.reply = true ∧ pr.calls = [])
+      ∧ (ad.kind = .command →
+          (payloadAcceptable ad.argument pr.hasData pr.clientAccepts = false →
+            Reply.isError pr.reply = true ∧ pr.calls = [])
+          ∧ (payloadAcceptable ad.argument pr.hasData pr.clientAccepts = true →
+            pr.calls ≠ []))
 
 instance [DecidableEq J] [DecidableEq V] (d : List (ModDesc J)) (pr : Probe J V) : Decidable (ProbeOK d pr) := by
   unfold ProbeOK
@@ -91,7 +123,10 @@ instance [DecidableEq J] [DecidableEq V] (d : List (ModDesc J)) (pr : Probe J V)
   · infer_instance
   · split
     · infer_instance
-    · split <;> infer_instance
+    · have : ∀ c : Option J, Decidable (match c with
+         | some c => pr.reply = .read c ∧ pr.calls = []
+         | none => True) := fun c => by cases c <;> infer_instance
+      infer_instance
     · infer_instance
     · infer_instance
 
@@ -115,6 +150,19 @@ def ClassPropsOK (base : List String) (mro : List ClassInfo) (ic feats : List St
 /-- monitor: the report's `interface_classes` / `features` of a module against the class chain -/
 def classPropsB (base : List String) (mro : List ClassInfo) (ic feats : List String) : Bool :=
   decide (ic = interfaceClassesOf base mro) && decide (feats = featuresOf mro)
+
+/-- "the interface class and features match the implementing class", as a statement about the REPORT of a module: what
+the report gives for `interface_classes` / `features` (absent = the empty list) is the serialisation of lists that
+satisfy `ClassPropsOK`, and `implementation` names the implementing class -/
+def ReportClassPropsOK (enc : PropEnc J) (base : List String) (impl : String) (mro : List ClassInfo)
+    (props : List (String × J)) : Prop :=   -- `enc`: how strings / lists of strings are written in the report
+  ∃ ic feats, ClassPropsOK base mro ic feats ∧
+    reportedProp props "interface_classes" (enc.strs []) = enc.strs ic ∧
+    reportedProp props "features" (enc.strs []) = enc.strs feats ∧
+    reportedProp props "implementation" (enc.str "") = enc.str impl
+
+/-- monitor: the `implementation` a report states is the qualified name of the implementing class -/
+def implementationB (impl : String) (reported : Option String) : Bool := reported == some impl
 
 /-! ### described datainfo against the runtime datatype (relative to the datatype oracle) -/
 
